@@ -119,8 +119,10 @@ impl DeepClone for b::TermId {
                     }
                 }
             }
-            | b::Term::Sealed(_term) => {
-                unreachable!()
+            | b::Term::Sealed(term) => {
+                // A `define` inside a pattern annotation is cloned with the pattern.
+                let b::Sealed(inner) = term;
+                b::Sealed(inner.deep_clone(desugarer)).into()
             }
             | b::Term::Ann(term) => {
                 let b::Ann { tm, ty } = term;
